@@ -223,7 +223,7 @@ def weave_fn(text, spec, unit_name):
     # loops inside a span that R4 outlines away do not take an invariant
     skip_spans = []
     for ol in spec.get('outline', []):
-        if text.count(ol['expr']) == 1:
+        if 'expr' in ol and text.count(ol['expr']) == 1:
             s0 = text.index(ol['expr'])
             if ol.get('through_matching_brace'):
                 ob0 = m.index('{', s0 + len(ol['expr']) - 1) if '{' not in ol['expr'] else s0 + ol['expr'].rindex('{')
@@ -250,6 +250,12 @@ def weave_fn(text, spec, unit_name):
             k += 1
         if lb is None:
             raise AnchorLost(f'{spec["name"]}: loop #{i} body not found')
+        if lp.get('for_iter'):
+            # ghost name for the iterator of a `for` loop (`for x in it: expr`), so that invariants can mention it.pos / it.elements
+            fm = re.match(r'for\s+[^{]*?\bin\s+', m[p:lb])
+            if not fm:
+                raise AnchorLost(f'{spec["name"]}: loop #{i} is not a `for .. in ..` loop')
+            w.insert(p + fm.end(), lp['for_iter'] + ': ', f'loop #{i} ghost iterator name')
         txt = '\n'
         for key in ('invariant', 'invariant_except_break', 'ensures'):
             if lp.get(key):
@@ -299,7 +305,25 @@ def weave_fn(text, spec, unit_name):
             cb = rustlex.match_brace(m, ob)
             w.replace(s0, cb + 1, ol['call'], 'R4 outlining of a block into helper with assumed contract')
             continue
+        if 'expr_re' in ol:
+            # the target given as a regular expression (whitespace-tolerant); every match is logged verbatim
+            hits = list(re.finditer(ol['expr_re'], text, re.S))
+            if (not ol.get('all') and len(hits) != 1) or not hits or ('count' in ol and len(hits) != ol['count']):
+                raise AnchorLost(f'{spec["name"]}: R4 target (regex) occurs {len(hits)}x: {ol["expr_re"]!r}')
+            for h in hits:
+                w.replace(h.start(), h.end(), h.expand(ol['call']), 'R4 outlining into helper with assumed contract')
+            continue
         cnt = text.count(ol['expr'])
+        if ol.get('all'):
+            # the same expression text at several places of one function (e.g. one per match arm): every occurrence is outlined
+            if cnt < 1 or ('count' in ol and cnt != ol['count']):
+                raise AnchorLost(f'{spec["name"]}: R4 target occurs {cnt}x (expected {ol.get("count", ">=1")}): {ol["expr"]!r}')
+            s = -1
+            for _ in range(cnt):
+                s = text.index(ol['expr'], s + 1)
+                w.replace(s, s + len(ol['expr']), ol['call'], 'R4 outlining into helper with assumed contract')
+                s += len(ol['expr']) - 1
+            continue
         if cnt != 1:
             raise AnchorLost(f'{spec["name"]}: R4 target occurs {cnt}x: {ol["expr"]!r}')
         s = text.index(ol['expr'])
@@ -508,4 +532,18 @@ def run_unit(ctx, up):
             else:
                 ctx.obligations.append(Obligation(name, 'V', 'failed', clause=clause, detail=(mine[0] if mine else 'verification failed')[:1500], unit=u['name'], raw='\n\n'.join(mine)[-8000:],
                                                   n_checks=1, n_failed=1, extra={'generated_file_excerpt': '\n'.join(gen_lines[max(0, lo - 1):hi])[:6000]}))
+    # errors Verus reported outside every function under contract (lemmas of the prelude, spec well-formedness): a lemma
+    # over contracts is not code, so this is never a violation — but the unit cannot be reported as fully discharged
+    attributed = set()
+    for f in info['functions']:
+        lo, hi = f.get('lines', (0, 0))
+        for e in errs:
+            mm = re.search(r'-->\s*\S+?:(\d+):', e)
+            if mm and lo <= int(mm.group(1)) <= hi:
+                attributed.add(e)
+    stray = [e.strip() for e in errs if e.startswith('error') and e not in attributed and 'aborting due to' not in e]
+    if stray:
+        ctx.obligations.append(Obligation(f'V:{u["name"]}::(prelude lemmas)', 'V', 'undecided', detail='a lemma or specification item outside the extracted functions failed: ' + stray[0][:1200], unit=u['name'], raw='\n\n'.join(stray)[-6000:]))
+    elif vr.get('verified', 0) > n_fn:
+        ctx.obligations.append(Obligation(f'V:{u["name"]}::(prelude lemmas)', 'V', 'discharged', clause='lemmas over the contracts (no code): ' + str(vr.get('verified', 0) - n_fn) + ' proof/spec items', unit=u['name'], n_checks=vr.get('verified', 0) - n_fn, extra={'unbounded': True}))
     ctx._samples.append({'verus_unit': u['name'], 'functions_verified': n_fn, 'verus_summary': vr})
